@@ -8,14 +8,18 @@ imported only to resolve the *names* used as dictionary keys (SDR_TYPE_*, L_*):
 * the linearisation dispatch of `SdrFullSensorRecord.lin`: the mask applied to
   `self.linearization`, the dict `L_* -> function`, every function normalised to a *tag* from
   its AST shape (not from its key!), and the `except KeyError -> DecodingError` handler;
-* `utils.BCD_MAP` as character codes.
+* `utils.BCD_MAP` as character codes (the 'bcd+' codec: FRU fields), and the BCD plus table the SDR
+  id-string path uses: the class-level string constant that `fields.TypeLengthString._from_data`
+  indexes (`self.<NAME>[…]`), read from the AST and cross-checked against the imported class; when
+  `_from_data` indexes no such table the SDR path goes through the 'bcd+' codec as well and the
+  table is `utils.BCD_MAP` (`sdr_bcd_source` says which).
 
 Class tags   0 SdrFullSensorRecord  1 SdrCompactSensorRecord  2 SdrEventOnlySensorRecord
              3 SdrFruDeviceLocator  4 SdrManagementControllerDeviceLocator
              5 SdrManagementControllerConfirmationRecord  6 SdrOEMSensorRecord
              7 SdrUnknownSensorRecord
 Function tags 0 x  1 ln x  2 log10 x  3 log2 x  4 e^x  5 10^x  6 2^x  7 1/x  8 x^2  9 x^3
-              10 sqrt x  11 x^(1/3)
+              10 sqrt x  11 pow(x, 1/3) (ValueError for x < 0)  12 copysign(pow(abs(x), 1/3), x) (real cube root)
 
 Fails closed: any shape outside this grammar raises TieBroken.
 
@@ -41,7 +45,8 @@ CLASS_TAG = {
     'SdrOEMSensorRecord': 6,
     'SdrUnknownSensorRecord': 7,
 }
-FN_NAMES = ['linear', 'ln', 'log10', 'log2', 'exp', 'exp10', 'exp2', 'inv', 'sqr', 'cube', 'sqrt', 'cubert']
+FN_NAMES = ['linear', 'ln', 'log10', 'log2', 'exp', 'exp10', 'exp2', 'inv', 'sqr', 'cube', 'sqrt', 'cubert',
+            'cubert-signed']
 
 
 def _find(body, kind, name):
@@ -116,6 +121,14 @@ def _fn_tag(node):
                     return 9
                 if isx(p) and _num(q) is not None and abs(_num(q) - 1.0 / 3) < 1e-15:
                     return 11
+            # math.copysign(math.pow(abs(x), 1.0/3), x): the cube root of |x| with the sign of x
+            if _is_math(b.func, 'copysign') and isx(q) and isinstance(p, ast.Call) and not p.keywords and \
+                    len(p.args) == 2 and _is_math(p.func, 'pow'):
+                base, ex = p.args
+                if isinstance(base, ast.Call) and isinstance(base.func, ast.Name) and base.func.id == 'abs' and \
+                        not base.keywords and len(base.args) == 1 and isx(base.args[0]) and \
+                        _num(ex) is not None and abs(_num(ex) - 1.0 / 3) < 1e-15:
+                    return 12
     raise TieBroken('lin: function outside the translator grammar: %s' % ast.dump(node)[:200])
 
 
@@ -210,12 +223,47 @@ def _lin(tree, mod):
     return mask, sorted(table)
 
 
+def _sdr_bcd(fields):
+    """(table as character codes, where it comes from) | None: the string constant of TypeLengthString
+    that _from_data indexes."""
+    try:
+        tree = ast.parse(repo.read('pyipmi/fields.py'))
+    except SyntaxError as e:
+        raise TieBroken('pyipmi/fields.py does not parse: %s' % e)
+    cls = _find(tree.body, ast.ClassDef, 'TypeLengthString')
+    fn = _find(cls.body, ast.FunctionDef, '_from_data')
+    consts = {}
+    for n in cls.body:
+        if isinstance(n, ast.Assign) and len(n.targets) == 1 and isinstance(n.targets[0], ast.Name) and \
+                isinstance(n.value, ast.Constant) and isinstance(n.value.value, str):
+            if n.targets[0].id in consts:
+                raise TieBroken('fields.py: TypeLengthString.%s is assigned twice' % n.targets[0].id)
+            consts[n.targets[0].id] = n.value.value
+    used = set()
+    for n in ast.walk(fn):
+        if isinstance(n, ast.Subscript) and isinstance(n.value, ast.Attribute) and \
+                isinstance(n.value.value, ast.Name) and n.value.value.id == 'self' and n.value.attr in consts:
+            used.add(n.value.attr)
+    if not used:
+        return None
+    if len(used) != 1:
+        raise TieBroken('fields.py: TypeLengthString._from_data indexes more than one string table: %s' % sorted(used))
+    name = used.pop()
+    live = getattr(getattr(fields, 'TypeLengthString', None), name, None)
+    if live != consts[name]:
+        raise TieBroken('fields.py: TypeLengthString.%s is %r in the imported class, %r in the source text' % (
+            name, live, consts[name]))
+    return [ord(c) for c in consts[name]], 'fields.TypeLengthString.' + name
+
+
 def extract():
-    """{'type_index', 'dispatch', 'default', 'lin_mask', 'lin', 'bcd_map'} from the working tree."""
+    """{'type_index', 'dispatch', 'default', 'lin_mask', 'lin', 'bcd_map', 'sdr_bcd_map', 'sdr_bcd_source'}
+    from the working tree."""
     import importlib
     try:
         mod = importlib.import_module('pyipmi.sdr')
         utils = importlib.import_module('pyipmi.utils')
+        fields = importlib.import_module('pyipmi.fields')
     except Exception as e:  # noqa
         raise TieBroken('pyipmi.sdr does not import: %s: %s' % (type(e).__name__, e))
     try:
@@ -227,8 +275,10 @@ def extract():
     bcd = getattr(utils, 'BCD_MAP', None)
     if not isinstance(bcd, list) or not all(isinstance(c, str) and len(c) == 1 for c in bcd):
         raise TieBroken('utils.BCD_MAP is not a list of single characters')
+    sb = _sdr_bcd(fields) or ([ord(c) for c in bcd], "utils.BCD_MAP (the 'bcd+' codec; no table of its own)")
     return {'type_index': index, 'dispatch': dispatch, 'default': dflt,
-            'lin_mask': mask, 'lin': lin, 'bcd_map': [ord(c) for c in bcd]}
+            'lin_mask': mask, 'lin': lin, 'bcd_map': [ord(c) for c in bcd],
+            'sdr_bcd_map': sb[0], 'sdr_bcd_source': sb[1]}
 
 
 def _pairs(l):
@@ -256,11 +306,16 @@ def generate():
         'def linMask : Nat := %d' % t['lin_mask'],
         '',
         '/-- `SdrFullSensorRecord.lin`: key ↦ function tag (0 x, 1 ln, 2 log10, 3 log2, 4 e^x, 5 10^x,',
-        '6 2^x, 7 1/x, 8 x², 9 x³, 10 sqrt, 11 cube root), tag taken from the shape of the function. -/',
+        '6 2^x, 7 1/x, 8 x², 9 x³, 10 sqrt, 11 `math.pow(x, 1.0/3)`: cube root of x ≥ 0, ValueError below,',
+        '12 `math.copysign(math.pow(abs(x), 1.0/3), x)`: real cube root), tag taken from the shape of the function. -/',
         'def lin : List (Nat × Nat) := %s' % _pairs(t['lin']),
         '',
         '/-- `utils.BCD_MAP` as character codes. -/',
         'def bcdMap : List Nat := [%s]' % ', '.join(str(c) for c in t['bcd_map']),
+        '',
+        '/-- The BCD plus table of the SDR id-string path (`TypeLengthString(sdr=True)`), as character codes:',
+        '%s. -/' % t['sdr_bcd_source'],
+        'def sdrBcdMap : List Nat := [%s]' % ', '.join(str(c) for c in t['sdr_bcd_map']),
         '',
         'end PyIpmi.Gen.SdrTables',
     ]
